@@ -93,7 +93,7 @@ def parse(expr: str):
             elif (expected & ParserState.RParen) == 0:
                 raise MathExpressionException('Unexpected ")"', scanner)
 
-            expected = ParserState.Operator | ParserState.RParen | ParserState.LParen
+            expected = ParserState.Operator | ParserState.RParen
         else:
             raise MathExpressionException('Unknown character', scanner)
 
